@@ -1,0 +1,38 @@
+//go:build verif
+
+package truthsocial
+
+// Assumed (opaque) contracts: site-specific helpers read the URL/response they are given and
+// return freshly built URLs; they write nothing outside fresh objects except the URL's cached
+// document / body position.
+//@ func IsAccountLookupURL
+//@   opaque
+//@   modifies models.URL::*
+//@ func IsAccountURL
+//@   opaque
+//@   modifies models.URL::*
+//@ func GenerateAccountLookupURL
+//@   opaque
+//@   modifies models.URL::*
+//@ func GenerateOutlinksURLsFromLookup
+//@   opaque
+//@   modifies models.URL::*
+//@ func IsPostURL
+//@   opaque
+//@   modifies models.URL::*
+//@ func GeneratePostAssetsURLs
+//@   opaque
+//@   modifies models.URL::*
+//@ func IsStatusesURL
+//@   opaque
+//@   modifies models.URL::*
+//@ func GenerateVideoURLsFromStatusesAPI
+//@   opaque
+//@   modifies models.URL::*
+//@ func NeedExtraction
+//@   opaque
+//@   modifies models.URL::*
+//@ func ExtractAssets
+//@   opaque
+//@   modifies models.URL::*
+//@   ensures forall(a, 0, len(result0), forall(b, 0, len(result1), result0[a] == nil || result0[a] != result1[b])) && forall(b, 0, len(result1), result1[b] == nil || fresh(result1[b]))
